@@ -356,9 +356,68 @@ func runC17(c *Ctx) {
 			}
 			return false, why
 		}
+		// a fast path tests "this host name is empty" or "the two host names are the same" and
+		// then writes what the general path would compute: each such test is taken both ways, with
+		// the equality it states used in the case where it holds
+		var semEqualSplit func(got, want *E, depth int) (bool, string)
+		semEqualSplit = func(got, want *E, depth int) (bool, string) {
+			ok, why := semEqualByCase(got, want)
+			if ok || got == nil || want == nil || depth >= 3 {
+				return ok, why
+			}
+			seen := map[string]bool{}
+			var ats []*E
+			collect := func(f Ref) {
+				for _, at := range u.AtomsOf(f) {
+					if !seen[at.key] {
+						seen[at.key] = true
+						ats = append(ats, at)
+					}
+				}
+			}
+			if isBoolE(got) {
+				collect(u.ToBool(got))
+			} else {
+				for _, cond := range u.Leaves(got) {
+					collect(cond)
+				}
+			}
+			for _, at := range ats {
+				if at.Op != "eq" || len(at.Args) != 2 {
+					continue
+				}
+				var from, to *E
+				switch {
+				case at.Args[0].Op == "len" && isIntConst(at.Args[1], 0):
+					from, to = at.Args[0].Args[0], u.Str("")
+				case at.Args[0].Typ != nil && isStringT(at.Args[0].Typ) && !at.Args[0].IsConst():
+					from, to = at.Args[0], at.Args[1]
+				case at.Args[1].Typ != nil && isStringT(at.Args[1].Typ) && !at.Args[1].IsConst():
+					from, to = at.Args[1], at.Args[0]
+				default:
+					continue
+				}
+				if from.Op == "param" || u.Mentions(to, func(x *E) bool { return x == from }) {
+					continue // the parameters themselves are split by semEqualByCase
+				}
+				pos := u.Atom(at)
+				sub := map[string]*E{from.key: to}
+				gA, wA := pureAt(u.Subst(u.Specialize(got, pos), sub)), pureAt(u.Subst(u.Specialize(want, pos), sub))
+				gB, wB := u.Specialize(got, u.bdd.Not(pos)), u.Specialize(want, u.bdd.Not(pos))
+				okA, _ := semEqualSplit(gA, wA, depth+1)
+				if !okA {
+					continue
+				}
+				okB, _ := semEqualSplit(gB, wB, depth+1)
+				if okB {
+					return true, ""
+				}
+			}
+			return false, why
+		}
 		for _, n := range names {
 			got := fieldVal(s, obj, n)
-			ok, why := semEqualByCase(got, want[n])
+			ok, why := semEqualSplit(got, want[n], 0)
 			c.Check(ok, rule[n], "NewRequest: Request."+n, nreq.Pos(), "= "+clip(u.Show(want[n]), 110), "the field is not derived as documented: "+why)
 		}
 		// ThirdParty
@@ -372,7 +431,7 @@ func runC17(c *Ctx) {
 		// compare under each combination of the two fallback tests (the domains are if-then-else values)
 		e1 := u.Eq(u.Call(calleeName(etld), strT, host), u.Str(""))
 		e2 := u.Eq(u.Call(calleeName(etld), strT, shost), u.Str(""))
-		semOK, semWhy := semEqualByCase(tp, wantTP)
+		semOK, semWhy := semEqualSplit(tp, wantTP, 0)
 		if os.Getenv("UFCHECK_DEBUG_C17") != "" {
 			fmt.Println("TP sem:", semOK, semWhy)
 		}
